@@ -567,6 +567,9 @@ def eval_dyad_join(a, b, backend):
         if a_is_1d_plus and b_is_1d_plus:
             if len(a) == 0:
                 return b
+            if len(b) == 0:
+                # nothing to append (concatenating an empty real array would turn integers into reals)
+                return a
             if len(a.shape) == len(b.shape) and a.shape[-1] == b.shape[-1]:
                 return bknp.concatenate((a,b))
 
